@@ -1,6 +1,7 @@
 import Ufo2ftModel.Model.C13
 import Ufo2ftModel.Spec.Render
 import Ufo2ftModel.Spec.C03
+import Ufo2ftModel.Model.C13VF
 /-! C13 declaratively: what must be true of (source glyph set, skip list, reduced glyph set). -/
 namespace Ufo2ft.C13
 open Ufo2ft
@@ -38,5 +39,28 @@ def vfWrong (skip : List String) (orderFull orderSkip : List String)
     (samples : List (String × String × Int × Int × List (List (Int × Int)) × List (List (Int × Int)))) : List String :=
   (if holdsOrder skip orderFull orderSkip then [] else ["<order>"]) ++
   (samples.filter (fun (_, _, advF, advS, dF, dS) => !(advF == advS && closeDrawing dF dS))).map (fun (loc, n, _) => loc ++ ":" ++ n)
+
+
+/-! ### the drawing of the model's variable font, in the canonical form the harness observes -/
+
+def leP (a b : Int × Int) : Bool := a.1 < b.1 || (a.1 == b.1 && a.2 ≤ b.2)
+
+/-- Python's order on lists of points -/
+def leL : List (Int × Int) → List (Int × Int) → Bool
+  | [], _ => true
+  | _ :: _, [] => false
+  | a :: as, b :: bs => if a == b then leL as bs else leP a b
+
+/-- contours as sorted sets of (rounded) points, the contours sorted: `sorted(sorted(set(c)) for c in contours)` -/
+def canonDrawing (cs : List Contour) : List (List (Int × Int)) :=
+  ((cs.filter (fun c => !c.isEmpty)).map (fun c =>
+    ((List.map (fun (p : Pt) => (otRound p.x, otRound p.y)) c).mergeSort leP).eraseDups)).mergeSort leL
+
+/-- what the model's variable fonts (without and with the skip list) show at the sampled locations:
+    (location, glyph, advance without / with, drawing without / with) for every non-skipped glyph of the family -/
+def vfModel (skip : List String) (I : C09.Inst) (ms ms' : C09.Masters) (locs : List Q) :
+    List (Q × String × Option Q × Option Q × List (List (Int × Int)) × List (List (Int × Int))) :=
+  locs.flatMap (fun t => ((C09.allNames ms).filter (fun n => !skip.contains n)).map (fun n =>
+    (t, n, advanceAt I ms t n, advanceAt I ms' t n, canonDrawing (renderAt I ms t n), canonDrawing (renderAt I ms' t n))))
 
 end Ufo2ft.C13
